@@ -85,6 +85,23 @@ type Graph struct {
 	SingDirect bool `json:"sing_direct,omitempty"`
 	// Leaks: uses of names that the using module neither defines nor imports (isolation probes).
 	Leaks []Leak `json:"leaks,omitempty"`
+	// Exit: how every function hands its result to its caller: "" as the value of its last
+	// expression, "return" with a `return` statement, "throw" by throwing it (`throw(result)`),
+	// "throw-deep" by throwing it from a private helper `raise` of its own module (the exception
+	// leaves a frame of the same module before it crosses the module boundary). A caught result is
+	// marked with a leading `!`. Whichever way a call ends, the caller goes on in its own module.
+	Exit string `json:"exit,omitempty"`
+	// Catch: where thrown results are caught: "" at every call site (`try { f() } catch e { .. }`
+	// around each call: the exception crosses one call), "entry" only in the entry's main function
+	// (the exception unwinds the frames of all modules on its way).
+	Catch string `json:"catch,omitempty"`
+	// Callback: function values handed across module boundaries: every module has a private
+	// function k (same name everywhere); every edge function takes a parameter `cb: fn() -> str`,
+	// calls it after the edge functions it imports, and passes a function on to those: "own" its own
+	// module's k, "relay" the function it received (so the entry's k travels down the import
+	// chain). The callback runs against the globals of the module that defines it, and the function
+	// that called it (and caught what it threw) goes on against its own.
+	Callback string `json:"callback,omitempty"`
 	// Family names the enumerator that produced the graph (evidence only).
 	Family string `json:"family,omitempty"`
 }
@@ -127,11 +144,43 @@ func (m *Mod) sings() []Item {
 }
 
 // singAccess is the expression through which a function body reaches singleton K of its module.
-func singAccess(g *Graph, name string) string {
-	if g.SingDirect {
+func singAccess(direct bool, name string) string {
+	if direct {
 		return "$" + name
 	}
 	return "p_" + name
+}
+
+// cbName is the name of the function every module hands out as a callback (Graph.Callback).
+const cbName = "k"
+
+// throws: every function ends by throwing its result.
+func (g *Graph) throws() bool { return g.Exit == "throw" || g.Exit == "throw-deep" }
+
+// isCallback: the function is handed out as a value of type `fn() -> str`: it cannot have singleton
+// extraction parameters (they are part of a function's type) and uses `$K` expressions instead.
+func (g *Graph) isCallback(it Item) bool {
+	return g.Callback != "" && it.Kind == "fn" && !it.Edge && it.Name == cbName
+}
+
+// caught wraps a call expression in the handler of the call site (if call sites catch).
+func (g *Graph) caught(call string) string {
+	if g.throws() && g.Catch == "" {
+		return "try { " + call + " } catch e { \"!\" + e.message }"
+	}
+	return call
+}
+
+// cbArg is the argument list of a call of function target from inside function from (nil: from
+// the entry's main function).
+func (g *Graph) cbArg(target Item, from *Item) string {
+	if g.Callback == "" || !target.Edge {
+		return ""
+	}
+	if g.Callback == "relay" && from != nil && from.Edge {
+		return "cb"
+	}
+	return cbName
 }
 
 func (m *Mod) edgeFn() *Item {
@@ -214,40 +263,49 @@ func Render(g *Graph, lk *Link) Rendered {
 				emit(fmt.Sprintf("$%s = { s: str };", it.Name))
 			}
 		}
+		if g.Exit == "throw-deep" {
+			emit("fn raise(s: str) -> str { throw(s); }")
+		}
 		for _, it := range m.Items {
 			if it.Kind != "fn" {
 				continue
 			}
+			it := it
 			pub := ""
 			if it.Pub {
 				pub = "pub "
 			}
 			sings := m.sings()
+			direct := g.SingDirect || g.isCallback(it)
 			var params []string
-			if !g.SingDirect {
+			if !direct {
 				for _, s := range sings {
 					params = append(params, fmt.Sprintf("p_%s: $%s", s.Name, s.Name))
 				}
+			}
+			if g.Callback != "" && it.Edge {
+				params = append(params, "cb: fn() -> str")
 			}
 			emit(fmt.Sprintf("%sfn %s(%s) -> str {", pub, it.Name, strings.Join(params, ", ")))
 			for _, w := range lk.writes(g, m.Name, it) {
 				emit(fmt.Sprintf("    %s = %s + \"'\";", w, w))
 			}
 			for _, s := range sings {
-				acc := singAccess(g, s.Name)
+				acc := singAccess(direct, s.Name)
 				emit(fmt.Sprintf("    %s.s = %s.s + \"%s.%s;\";", acc, acc, m.Name, it.Name))
 			}
 			var parts []string
 			for i, r := range lk.refs(g, m.Name, it) {
 				q := fmt.Sprintf("q_%s_%d", it.Name, i)
 				switch r.Item.Kind {
-				case "fn":
+				case "fn", "cb":
+					// (a ref of kind cb is the call of the function value the edge function received)
+					callee, arg := r.Item.Name, g.cbArg(r.Item, &it)
 					if g.ViaValue {
-						emit(fmt.Sprintf("    let h%s = %s;", q, r.Item.Name))
-						emit(fmt.Sprintf("    let %s = h%s();", q, q))
-					} else {
-						emit(fmt.Sprintf("    let %s = %s();", q, r.Item.Name))
+						emit(fmt.Sprintf("    let h%s = %s;", q, callee))
+						callee = "h" + q
 					}
+					emit(fmt.Sprintf("    let %s = %s;", q, g.caught(callee+"("+arg+")")))
 				case "let":
 					emit(fmt.Sprintf("    let %s = %s;", q, r.Item.Name))
 				case "type":
@@ -259,7 +317,7 @@ func Render(g *Graph, lk *Link) Rendered {
 			// the singleton logs are read last: after every callee has run
 			for _, s := range sings {
 				q := fmt.Sprintf("qs_%s_%s", it.Name, s.Name)
-				emit(fmt.Sprintf("    let %s = %s.s;", q, singAccess(g, s.Name)))
+				emit(fmt.Sprintf("    let %s = %s.s;", q, singAccess(direct, s.Name)))
 				parts = append(parts, "\"[\" + "+q+" + \"]\"")
 			}
 			expr := fmt.Sprintf("\"%s.%s(\"", m.Name, it.Name)
@@ -270,7 +328,16 @@ func Render(g *Graph, lk *Link) Rendered {
 				expr += " + " + p
 			}
 			expr += " + \")\""
-			emit("    " + expr)
+			switch g.Exit {
+			case "return":
+				emit("    return " + expr + ";")
+			case "throw":
+				emit("    throw(" + expr + ");")
+			case "throw-deep":
+				emit("    raise(" + expr + ")")
+			default:
+				emit("    " + expr)
+			}
 			emit("}")
 		}
 		out.LeakLine[m.Name] = map[int]Leak{}
@@ -293,9 +360,14 @@ func Render(g *Graph, lk *Link) Rendered {
 		}
 		if mi == 0 {
 			emit("fn main() {")
-			for _, b := range lk.mainPrints(g) {
-				if b.Item.Kind == "fn" {
-					emit(fmt.Sprintf("    println(\"%s=\" + %s());", b.Item.Name, b.Item.Name))
+			for i, b := range lk.mainPrints(g) {
+				if b.Item.Kind == "fn" && g.throws() {
+					// statement form of try: the handler assigns to a local of main
+					emit(fmt.Sprintf("    let m%d = \"\";", i))
+					emit(fmt.Sprintf("    try { m%d = %s(%s); } catch e { m%d = \"!\" + e.message; }", i, b.Item.Name, g.cbArg(b.Item, nil), i))
+					emit(fmt.Sprintf("    println(\"%s=\" + m%d);", b.Item.Name, i))
+				} else if b.Item.Kind == "fn" {
+					emit(fmt.Sprintf("    println(\"%s=\" + %s(%s));", b.Item.Name, b.Item.Name, g.cbArg(b.Item, nil)))
 				} else {
 					emit(fmt.Sprintf("    println(\"%s=\" + %s);", b.Item.Name, b.Item.Name))
 				}
@@ -352,6 +424,27 @@ func Describe(g *Graph) string {
 	}
 	if g.Mut {
 		parts = append(parts, "(functions write to pub and imported globals)")
+	}
+	switch g.Exit {
+	case "return":
+		parts = append(parts, "(functions end with `return`)")
+	case "throw":
+		parts = append(parts, "(functions end by throwing their result)")
+	case "throw-deep":
+		parts = append(parts, "(functions end by throwing their result from a private helper of their module)")
+	}
+	if g.throws() {
+		if g.Catch == "entry" {
+			parts = append(parts, "(caught only in the entry's main)")
+		} else {
+			parts = append(parts, "(caught at every call site)")
+		}
+	}
+	switch g.Callback {
+	case "own":
+		parts = append(parts, "(every edge function is handed the private function k of its caller's module and calls it)")
+	case "relay":
+		parts = append(parts, "(the entry's private function k is handed down through all edge functions, each calls it)")
 	}
 	return strings.Join(parts, "  ")
 }
